@@ -61,6 +61,31 @@ Proof.
   split; [vm_compute; reflexivity|]. split; [vm_compute; reflexivity|]. cbn. intro H. discriminate H.
 Qed.
 
+(* likewise for drop of INNER objects the rule is the outer-object family, not the blueprint: a
+   method of another inner blueprint of the same outer object (a vault of resource 10 dropping a
+   bucket of resource 10) is admitted — the native resource package relies on it; finding class
+   drop_by_sibling_inner_object.  DropRight in C50_drop_only_own is the exact rule;
+   C50_drop_same_package the package-level guarantee that does hold. *)
+Theorem C50_drop_blueprint_level_refuted :
+  exists h a n info,
+    drop_check h a n = Granted /\ lookup h n = Some (TObject info) /\
+    actor_bp a <> Some (oi_bp info) /\ instance_context a <> Some n.
+Proof.
+  exists [(20, TObject (mkOI (mkBp 0 6) (OSome 10) false)); (21, TObject (mkOI (mkBp 0 7) (OSome 10) false));
+          (10, TObject (mkOI (mkBp 0 5) ONone true))],
+         (AMethod MMain 21 (mkOI (mkBp 0 7) (OSome 10) false)), 20, (mkOI (mkBp 0 6) (OSome 10) false).
+  split; [vm_compute; reflexivity|]. split; [vm_compute; reflexivity|].
+  split; cbn; intro H; discriminate H.
+Qed.
+
+(* key-value stores are not objects: key_value_store_open_entry consults only the node's type, never
+   the actor — their encapsulation rests entirely on kernel ownership / visibility (outside this model) *)
+Theorem C50_kv_store_open_ignores_actor : forall h a b n, kv_open_check h a n = kv_open_check h b n.
+Proof. exact kv_open_actor_irrelevant. Qed.
+Theorem C50_kv_store_open_granted_iff : forall h a n,
+  kv_open_check h a n = Granted <-> lookup h n = Some TKVStore.
+Proof. exact kv_open_granted_iff. Qed.
+
 (* new_object: the created object is of the actor's package, owned, and — for an inner blueprint —
    its outer object is the actor's instance context, whose blueprint name is the declared outer *)
 Theorem C50_new_object_own_package : forall h defs a ident i,
@@ -125,6 +150,9 @@ Print Assumptions C50_drop_only_own.
 Print Assumptions C50_drop_denied_is_invalid_drop_access.
 Print Assumptions C50_globalize_only_own.
 Print Assumptions C50_globalize_blueprint_level_refuted.
+Print Assumptions C50_drop_blueprint_level_refuted.
+Print Assumptions C50_kv_store_open_ignores_actor.
+Print Assumptions C50_kv_store_open_granted_iff.
 Print Assumptions C50_new_object_own_package.
 Print Assumptions C50_state_only_self_or_outer.
 Print Assumptions C50_state_handle_other_refused.
